@@ -461,6 +461,11 @@ class World(WorldBase):
         if extra:
             raise Violation(f"C18/I2-other-file-changed:{tag}",
                             f"the call changed {extra}, which the same call in the clean room does not touch; args={self.brief(op)}")
+        if rep.get("state") is not None and "obj" in op and op["obj"] in self.pool:
+            # not judged (a private cache would be legitimate): how often the attributes of a
+            # long-lived object after a call differ from the clean room's
+            same = canon(obj_state(self.pool[op["obj"]].value)) == rep["state"]
+            ctx.probe("object_state_equals_clean_room" if same else f"object_state_differs_from_clean_room:{tag}")
         # ---- I3: the file holds what was returned
         n3 = a.check_files(self, op, res)
         if n3:
@@ -645,15 +650,24 @@ def replica_handler(req, box):
     op = ops[-1]
     ctx.step = op["id"]
     a = w.precheck(op)
+    # "written by the call" must include a rewrite with identical bytes: every existing file is
+    # stamped with a fixed old time first, so that whatever carries another stamp afterwards
+    # was written by the call (the stamp never enters a verdict by value)
     before = dirstate(box)
+    stamp = 10 ** 18
+    for p in before:
+        os.utime(os.path.join(box, p), ns=(stamp, stamp))
     res, exc = None, None
     try:
         res = w.exec_call(op)
     except BaseException as e:  # noqa: BLE001
         exc = (type(e).__name__, str(e)[:300])
     after = dirstate(box)
-    files = {p: d for p, d in after.items() if before.get(p) != d}
-    out = {"exc": exc, "files": files, "digest": None, "blob": None}
+    files = {p: d for p, d in after.items()
+             if before.get(p) != d or os.stat(os.path.join(box, p)).st_mtime_ns != stamp}
+    out = {"exc": exc, "files": files, "digest": None, "blob": None, "state": None}
+    if "obj" in op and op["obj"] in w.pool:
+        out["state"] = canon(obj_state(w.pool[op["obj"]].value))
     if exc is None:
         pl = a.canon_result(w, op, res)
         out["digest"] = canon(pl)
